@@ -6,7 +6,7 @@ CONSTANTS
   Payload = 4
   MaxFrag = 3
   MaxCb = 4
-  MaxOps = 1
+  MaxOps = 2
   Evs = {0, 1}
   Efls = {0, 1, 2}
   Everys = {FALSE, TRUE}
